@@ -23,8 +23,6 @@ PARTIAL = [
                 "accuracy of eigh is not covered; completeness of the matrix basis enters as hypothesis hspan (the clipped operator lies in "
                 "the real span of the basis), re-checked numerically by the harness for the bases quara ships; orthonormality of the operator "
                 "basis B is a hypothesis (that of the Choi basis B_a (x) conj(B_b) is derived: orthoN_kronBasis)"},
-    {"theorem": "mprocess_eq_var_F_argument_partial / mprocess_eq_var_F_argument_unchanged_fails",
-     "missing": "purity of MProcess.calc_proj_eq_constraint_with_var(..., False) holds only for feasible arguments (defect D5, negation witness proved)"},
 ]
 TYPES = ("State", "Povm", "Gate", "MProcess")
 CLS = {"State": State, "Povm": Povm, "Gate": Gate, "MProcess": MProcess}
@@ -440,13 +438,10 @@ def correspondence(ctx):
                 arg = r["arg_before"]
                 i = eq_request(drv, typ, c, site, flag, arg, m)
                 pend.append(("eq", typ, kind, site, flag, m, arg, r, i))
-                if typ == "MProcess" and site in ("var", "funcvar") and not flag:
-                    # the model mirrors the code as it is: this call site writes through views of its argument (D5)
-                    j = drv.ask("m_eq_var_after", m, n_of(c), qlist(arg))
-                    if np.array_equal(r["arg_before"], r["arg_after"]):
-                        ctx.count("D5 not observed: argument of MProcess eq with_var(False) unchanged (defect repaired?)")
-                    else:
-                        pend.append(("eqafter", typ, kind, site, flag, m, arg, dict(r, result=r["arg_after"]), j))
+                if typ == "MProcess" and site in ("var", "funcvar"):
+                    # argument after the call, as modelled (pure since the repair of D5)
+                    j = drv.ask("m_eq_var_after", "T" if flag else "F", m, n_of(c), qlist(arg))
+                    pend.append(("eqafter", typ, kind, site, flag, m, arg, dict(r, result=r["arg_after"]), j))
                 ctx.count(f"eq {typ} {site} flag={flag}")
                 ctx.case(("eq", typ, kind, site, flag, m, tuple(arg)), nontrivial=not (flag and typ in ("State", "Gate")),
                          sample={"op": f"eq/{typ}/{site}", "flag": flag, "m": m, "system": kind, "scale": cs["scale"],
@@ -483,11 +478,10 @@ def correspondence(ctx):
     for which, typ, kind, site, flag, m, arg, r, i in pend:
         op = f"{which}/{typ}/{site}"
         ctx.corr_ops.add(op)
-        if which != "eqafter" and r["err"] is None and which == "eq" and not (typ == "MProcess" and site in ("var", "funcvar") and not flag):
-            # everywhere else the model is pure: the argument must be what it was
-            if not np.array_equal(r["arg_before"], r["arg_after"]):
-                ctx.disagree(op + "/argument", {"flag": flag, "m": m, "system": kind, "arg": arg.tolist()},
-                             "argument modified", "model: pure")
+        if which in ("eq", "ineq") and r["err"] is None and not np.array_equal(r["arg_before"], r["arg_after"]):
+            # the model is pure: the argument must be what it was
+            ctx.disagree(op + "/argument", {"flag": flag, "m": m, "system": kind, "arg": arg.tolist()},
+                         "argument modified", "model: pure")
         inp = {"flag": flag, "m": m, "system": kind, "arg": arg.tolist()}
         toks = out[i].split()
         if toks[0] != "ok":
@@ -687,7 +681,8 @@ def oracle(ctx, volume=1):
 
 
 def defect_d5(ctx):
-    """minimal exhibit of DESIGN §5-D5 (kept as a fixed corpus case so that it is re-observed on every run)"""
+    """minimal exhibit of DESIGN §5-D5 (repaired in /repo d072139; kept as a fixed corpus case so that a regression is
+    reported as C04/eq/MProcess/var/F/mutates-argument on every run)"""
     c, _ = system("q")
     x = stacked(qobj.rand_mprocess(ctx.npgen(5), c, 2, required=False)[0])
     x = x + 0.01
